@@ -23,3 +23,5 @@ def run(ctx):
     for s in scns:
         ctx.count("chunks_%d" % (len(s["cuts"]) + 1))
     base.run_twin(ctx, "batch_vs_chunked", scns)
+    large = [TW.gen_c06_large(ctx.seed, i) for i in range(ctx.scale(6, 60))]
+    base.run_twin(ctx, "batch_vs_chunked", large, shrink=False)
